@@ -495,3 +495,13 @@ func (InlinePredicates) Inline(e *Engine, call *ast.CallExpr, callee *types.Func
 	}
 	return true
 }
+
+// isClosureDecl: decl stands for a local function literal (see closureTarget).
+func (p *Program) isClosureDecl(decl *ast.FuncDecl) bool {
+	for _, d := range p.closureDecls {
+		if d == decl {
+			return true
+		}
+	}
+	return false
+}
